@@ -853,7 +853,7 @@ func runC11(a runArgs) error {
 	e.Preamble = "From GoCoap Require Import Reader.Model Reader.Spec Reader.Mutex."
 	e.ShardSize = 400
 	e.MaxBytes = 400000
-	e.Rule = "layer (a) stand-alone client.ReceivedMessageReader with a fake client: forced = cooperative scheduler behind the verifYield points executes a schedule (threads: producer P, loops L<i>, external TryToReplaceLoop caller X, closer C), every step's resulting scheduling point and the dispatch log are compared with the model; all schedules of the small configurations (depth-first by re-execution), random schedules of random configurations (queue sizes 0,1,2,16; handler programs of TryToReplaceLoop calls R and nested blocking requests N<r>; close). stat = hook-free free-running trials. layer (b) real udp/client.Conn over the in-memory session with handlers issuing nested Do to depth 1-3 (thorough: up to 5). layer (c) bursts of 3-200 back-to-back messages through the socket reader's hand-off into the receive queue of a real tcp/client.Conn (scripted stream; one write, writes of j frames, writes of j bytes) and of a real udp/client.Conn (one goroutine calling Process), queue sizes 0/1/16, handlers that return at once, that block on a harness channel until the reader is parked on the full queue, and that issue a nested request whose response is part of the burst. layer (d) real udp / tcp connections, one message at a time: confirmable nested requests answered by a piggybacked ACK, pings issued by handlers (pong behind 0..queue+2 messages), requests of the peer whose message ID is placed relative to the connection's own counter (equal to the next ID drawn, inside / at the edges of / outside the checkMyMessageID window, across the 16-bit wrap of either counter, two requests 0x8000 apart), retransmitted copies of a request whose handler is blocked or has finished; a wait ends as a stall when the connection is quiescent (socket reader through or parked, every reader-loop goroutine blocked, twice in a row) without the awaited effect. Distinct = distinct (configuration, executed schedule) resp. burst / script descriptor; non-trivial = at least one replacement request in the run (handler program or external caller), for a burst: more messages than queue size + 1 (some push has to wait for the consumer)."
+	e.Rule = "layer (a) stand-alone client.ReceivedMessageReader with a fake client: forced = cooperative scheduler behind the verifYield points executes a schedule (threads: producer P, loops L<i>, external TryToReplaceLoop caller X, closer C), every step's resulting scheduling point and the dispatch log are compared with the model; all schedules of the small configurations (depth-first by re-execution), random schedules of random configurations (queue sizes 0,1,2,16; handler programs of TryToReplaceLoop calls R and nested blocking requests N<r>; close). stat = hook-free free-running trials. layer (b) real udp/client.Conn over the in-memory session with handlers issuing nested Do to depth 1-3 (thorough: up to 5). layer (c) bursts of 3-200 back-to-back messages through the socket reader's hand-off into the receive queue of a real tcp/client.Conn (scripted stream; one write, writes of j frames, writes of j bytes) and of a real udp/client.Conn (one goroutine calling Process), queue sizes 0/1/16, handlers that return at once, that block on a harness channel until the reader is parked on the full queue, and that issue a nested request whose response is part of the burst. layer (d) real udp / tcp connections, one message at a time: confirmable nested requests answered by a piggybacked ACK, pings issued by handlers (pong behind 0..queue+2 messages), requests of the peer whose message ID is placed relative to the connection's own counter (equal to the next ID drawn, inside / at the edges of / outside the checkMyMessageID window, across the 16-bit wrap of either counter, two requests 0x8000 apart), retransmitted copies of a request whose handler is blocked or has finished; a wait ends as a stall when the connection is quiescent (socket reader through or parked, every reader-loop goroutine blocked, twice in a row) without the awaited effect; the scripts also carry notifications of one or two observations whose observe callback executes a program (nested request, confirmable nested request, ping, registration of a further observation) while further notifications of the same observation, of the other one and requests arrive before the awaited reply, retransmitted notifications, and handlers that register an observation themselves. layer (a) at mutex granularity (ForcedM): the same reader with scheduling points inside the two sections of its mutex; plans that drive TryToReplaceLoop / the re-lock into the held mutex, all schedules (capped) of small configurations, random schedules; a goroutine let into the held mutex is seen blocked in sync.Mutex.Lock (stack witness). Distinct = distinct (configuration, executed schedule) resp. burst / script descriptor; non-trivial = at least one replacement request in the run (handler program or external caller), for a burst: more messages than queue size + 1 (some push has to wait for the consumer)."
 	rng := NewRng(a.seed)
 	nontrivial := func(c c11Cfg) bool {
 		if c.k > 0 {
